@@ -27,6 +27,22 @@ def _vec_fuzzed(prop, tier, swap2=False, **kw):
     return cov, viols + v2, inc + i2
 
 
+def _set_fuzzed(prop, tier, kind, owners, cov, viols, inc):
+    """adds the coverage-guided stage of the FlatSet ('fs') or SmallSet ('ss') history engine to (cov, viols, inc)"""
+    c2, v2, i2 = fuzz.run(prop, tier, sets.fuzz_cfgs(kind, tier), 100000 if tier == "thorough" else 20000, max_len=1200, crash_owners=owners)
+    cg = c2.pop("coverage_guided")
+    out = sets.merge_cov(cov, c2)
+    prev = cov.get("coverage_guided")
+    if prev:
+        for k in ("inputs_executed", "inputs_that_reached_new_coverage", "corpus_units_at_end", "libfuzzer_features_sum"):
+            cg[k] += prev.get(k, 0)
+        cg["libfuzzer_edges_max_per_binary"] = max(cg["libfuzzer_edges_max_per_binary"], prev.get("libfuzzer_edges_max_per_binary", 0))
+        cg["configurations"] = prev.get("configurations", []) + cg["configurations"]
+        cg["runs_per_configuration"] = "%s / %s" % (prev.get("runs_per_configuration"), cg["runs_per_configuration"])
+    out["coverage_guided"] = cg
+    return out, viols + v2, inc + i2
+
+
 def c01(tier):
     t0 = time.time()
     cov, viols, inc = _vec_fuzzed("C01", tier)
@@ -46,14 +62,22 @@ def _with_sets(prop, tier, flat=True, small_space=True, small_hist=True, nested=
     cov, viols, inc = _vec_fuzzed(prop, tier)
     if flat:
         c2, v2, i2 = sets.run_engine(prop, tier, sets.flatset_cfgs(tier), 300, 3000, crash_owners=("C03", "C02"))
+        cg = cov.get("coverage_guided")
         cov, viols, inc = sets.merge_cov(cov, c2), viols + v2, inc + i2
+        if cg:
+            cov["coverage_guided"] = cg
+        cov, viols, inc = _set_fuzzed(prop, tier, "fs", ("C03", "C02"), cov, viols, inc)
     if small_space:
         c3, v3, i3 = sets.run_space(prop, tier, ("C04", "C11", "C02"))
         cov, viols, inc = sets.merge_cov(cov, c3), viols + v3, inc + i3
     if small_hist:
         cfgs = sets.SS_HIST_QUICK + (sets.SS_HIST_THOROUGH if tier == "thorough" else [])
         c4, v4, i4 = sets.run_engine(prop, tier, cfgs, 200, 3000, ops=80, crash_owners=("C04", "C11", "C02"))
+        cg = cov.get("coverage_guided")
         cov, viols, inc = sets.merge_cov(cov, c4), viols + v4, inc + i4
+        if cg:
+            cov["coverage_guided"] = cg
+        cov, viols, inc = _set_fuzzed(prop, tier, "ss", ("C04", "C11", "C02"), cov, viols, inc)
     if nested:
         ncfgs = sets.NESTED_QUICK + (sets.NESTED_THOROUGH if tier == "thorough" else [])
         c5, v5, i5 = sets.run_engine(prop, tier, ncfgs, 150, 1500, ops=60, crash_owners=("C14", "C02"))
@@ -115,9 +139,10 @@ def c07(tier):
 def c03(tier):
     t0 = time.time()
     cov, viols, inc = sets.run_engine("C03", tier, sets.flatset_cfgs(tier), 300, 3000)
+    cov, viols, inc = _set_fuzzed("C03", tier, "fs", ("C03", "C02"), cov, viols, inc)
     cov["rule"] = ("random operation histories over a pool of 3 FlatSets + one FlatSet with another comparator + a spare vector; every call compared with "
                    "std::set models built with the same comparator object (sequence by key and payload, booleans, counts, bounds, positions, node state), "
-                   "strict comparator order after every call, comparator provenance; distinct cell = (configuration, operation, size class, argument class)")
+                   "strict comparator order after every call, comparator provenance; distinct cell = (configuration, operation, size class, argument class)." + FUZZ_RULE)
     return core.finish("C03", tier, "exploration", cov, viols, inc, t0, ASSUME_SAN, min_evals=1000)
 
 
@@ -135,9 +160,10 @@ def _smallset(prop, tier, owners):
     cfgs = sets.SS_HIST_QUICK + (sets.SS_HIST_THOROUGH if tier == "thorough" else [])
     cov2, v2, i2 = sets.run_engine(prop, tier, cfgs, 200, 3000, ops=80, crash_owners=owners)
     cov = sets.merge_cov(cov1, cov2)
+    cov, v2, i2 = _set_fuzzed(prop, tier, "ss", owners, cov, v2, i2)
     for k in ("states", "transitions", "per_configuration", "exhaustive"):
         cov[k] = cov1[k]
-    cov["rule"] = SS_RULE
+    cov["rule"] = SS_RULE + FUZZ_RULE
     cov["exhaustive_scope"] = "small-scope state space only (N<=3, 5 keys); the random histories are a sample"
     return cov, v1 + v2, i1 + i2, t0
 
@@ -383,7 +409,7 @@ def setup():
 def all_thorough_specs():
     cfgs = (vec.THOROUGH_EXTRA + sets.FS_THOROUGH + sets.SS_SPACE_THOROUGH + sets.SS_HIST_THOROUGH + sets.HG_THOROUGH + sets.COST_THOROUGH + vec.GROWTH_THOROUGH +
             vec.ALIAS_THOROUGH + vec.LIMITS_THOROUGH + vec.FAULT_THOROUGH + sets.SETFAULT_THOROUGH + vec.SWAP2_THOROUGH + sets.ALGO_THOROUGH + sets.NESTED_THOROUGH + sets.GROWTH_HUGE_THOROUGH)
-    return [c.spec() for c in cfgs] + [c16.spec(b) for b in c16.matrix("thorough")] + [c20.spec("clang++-14")] + [fuzz.spec_of(c) for c in vec.FUZZ_CFGS]
+    return [c.spec() for c in cfgs] + [c16.spec(b) for b in c16.matrix("thorough")] + [c20.spec("clang++-14")] + [fuzz.spec_of(c) for c in vec.FUZZ_CFGS + sets.FUZZ_FS + sets.FUZZ_SS]
 
 
 def setup_thorough():
@@ -404,7 +430,7 @@ def replay(path):
         # found by the coverage-guided stage: the libFuzzer artifact is the history; re-execute it with the fuzz binary of that configuration
         import os
         import subprocess
-        for c in vec.FUZZ_CFGS:
+        for c in vec.FUZZ_CFGS + sets.FUZZ_FS + sets.FUZZ_SS:
             if c.name == cfgname:
                 sp = fuzz.spec_of(c)
                 b = core.build_many([sp])[sp["name"]]
@@ -462,6 +488,6 @@ def replay(path):
     return 1
 
 
-EXTRA_SETUP = [lambda: [c16.spec(b) for b in c16.matrix("quick")], lambda: [c20.spec()], lambda: [fuzz.spec_of(c) for c in vec.FUZZ_QUICK]]
+EXTRA_SETUP = [lambda: [c16.spec(b) for b in c16.matrix("quick")], lambda: [c20.spec()], lambda: [fuzz.spec_of(c) for c in vec.FUZZ_QUICK + sets.fuzz_cfgs('fs', 'quick') + sets.fuzz_cfgs('ss', 'quick')]]
 
 CHECKS = {"C01": c01, "C02": c02, "C05": c05, "C06": c06, "C07": c07, "C03": c03, "C04": c04, "C11": c11, "C12": c12, "C19": c19, "C18": c18, "C10": c10, "C08": c08, "C09": c09, "C13": c13, "C15": c15, "C16": c16_check, "C17": c17_check, "C14": c14, "C20": c20_check}
